@@ -35,9 +35,11 @@ def _verify(arg):
 
         if kind == "lemma":
             return verify_lemma(reg, reg.lemmas[name])
+        if kind == "static":
+            return reg.statics[name][0](reg)
         return verify_contract(reg, reg.contracts[name])
     except Exception:
-        return {"contract": name if kind != "lemma" else "lemma:" + name, "status": "engine-error", "unsupported": traceback.format_exc(limit=8),
+        return {"contract": {"lemma": "lemma:", "static": "static:"}.get(kind, "") + name, "status": "engine-error", "unsupported": traceback.format_exc(limit=8),
                 "obligations": [], "props": [], "functions": [], "assumed_contracts": [], "inlined": [], "paths": 0, "covers": 0, "solver_time_s": 0}
 
 
@@ -67,6 +69,9 @@ def items_for(reg, prop):
     for n, l in reg.lemmas.items():
         if prop in l.props:
             out.append(("lemma", n))
+    for n, (fn, props) in reg.statics.items():
+        if prop in props:
+            out.append(("static", n))
     return out
 
 
@@ -95,7 +100,7 @@ def run(prop, tier="quick", seed=0, jobs=16):
     native_jobs = []
     for r in results:
         name = r["contract"]
-        if name.startswith("lemma:") or name not in reg.contracts:
+        if name.startswith("lemma:") or name.startswith("static:") or name not in reg.contracts:
             continue
         c = reg.contracts[name]
         if c.status == "assumed":
@@ -205,7 +210,7 @@ def _samples(results):
 
 def relock(props=None):
     reg = load_all_contracts()
-    items = [("contract", n) for n in reg.contracts] + [("lemma", n) for n in reg.lemmas]
+    items = [("contract", n) for n in reg.contracts] + [("lemma", n) for n in reg.lemmas] + [("static", n) for n in reg.statics]
     results = run_items(items)
     led = {}
     for r in results:
